@@ -260,6 +260,12 @@ Record err_cfg := mkErrCfg { c_none_nan : bool; c_six : bool; c_int : bool }.
 Definition current_cfg : err_cfg := mkErrCfg stderr_none_is_nan six_guarded int_flux_guarded.
 
 Definition none_to_nan (c : cls) : cls := match c with PyNone => CNan | x => x end.
+
+(* ---- _refit_islands: an uncertainty that priorized fitting does not fit is taken from the input catalogue (any float: a
+   catalogue without err_* columns leaves the nan of ComponentSource()), through _known_error when the generated switch says so *)
+Definition copied_error_with (guarded : bool) (c : cls) : cls :=
+  if guarded then match c with Pos => Pos | _ => MinusOne end else c.
+Definition copied_error := copied_error_with copied_errors_guarded.
 (* `not (np.isfinite(x) and x > 0)` -> ERR_MASK; None raises *)
 Definition mask_cls (c : cls) : option cls :=
   match c with Pos => Some Pos | PyNone => None | _ => Some MinusOne end.
